@@ -13,26 +13,46 @@ from contextlib import redirect_stdout
 from .model import AnalysisError
 
 
-def _parse_unified(diff_text: str) -> dict[str, list]:
-    """{relpath: [(old_start, [lines with ' ', '-', '+' prefixes])]}"""
+def _parse_unified(diff_text: str, meta: dict | None = None) -> dict[str, list]:
+    """{relpath: [(old_start, [lines with ' ', '-', '+' prefixes])]}; meta (if given) receives 'new' and 'deleted' path sets"""
+    import re
     files: dict[str, list] = {}
     cur = None
     hunk = None
+    header = True           # between a `diff` line and the first `@@`: `---` / `+++` are file headers there, hunk content elsewhere
+    old_path = None
+    left = [0, 0]           # remaining old / new lines of the current hunk
     for line in diff_text.splitlines():
-        if line.startswith("+++ "):
+        if hunk is not None and (left[0] > 0 or left[1] > 0) and (line[:1] in (" ", "-", "+") or line == ""):
+            hunk[1].append(line if line else " ")
+            c = line[:1] or " "
+            if c in (" ", "-"):
+                left[0] -= 1
+            if c in (" ", "+"):
+                left[1] -= 1
+            continue
+        if line.startswith("diff "):
+            header, hunk, cur = True, None, None
+        elif header and line.startswith("--- "):
+            old_path = line[4:].strip()
+        elif header and line.startswith("+++ "):
             path = line[4:].strip()
-            path = path[2:] if path.startswith("b/") else path
+            if path == "/dev/null":
+                path = old_path[2:] if old_path.startswith("a/") else old_path
+                if meta is not None:
+                    meta.setdefault("deleted", set()).add(path)
+            else:
+                path = path[2:] if path.startswith("b/") else path
+                if old_path == "/dev/null" and meta is not None:
+                    meta.setdefault("new", set()).add(path)
             cur = files.setdefault(path, [])
             hunk = None
-        elif line.startswith("--- ") or line.startswith("diff ") or line.startswith("index "):
-            continue
         elif line.startswith("@@") and cur is not None:
-            import re
-            m = re.match(r"@@ -(\d+)(?:,\d+)? \+\d+(?:,\d+)? @@", line)
+            m = re.match(r"@@ -(\d+)(?:,(\d+))? \+\d+(?:,(\d+))? @@", line)
             hunk = (int(m.group(1)), [])
+            left = [int(m.group(2)) if m.group(2) is not None else 1, int(m.group(3)) if m.group(3) is not None else 1]
             cur.append(hunk)
-        elif hunk is not None and (line[:1] in (" ", "-", "+") or line == ""):
-            hunk[1].append(line if line else " ")
+            header = False
         elif line.startswith("\\"):
             continue
     return files
@@ -67,7 +87,19 @@ def _apply(root: str, w: dict) -> tuple[dict | None, str]:
             text = open(w["patch"], encoding="utf-8").read()
         except OSError:
             return None, f"patch {w['patch']} missing"
-        for rel, hunks in _parse_unified(text).items():
+        meta: dict = {}
+        for rel, hunks in _parse_unified(text, meta).items():
+            if rel in meta.get("deleted", ()):
+                overrides[rel] = None
+                continue
+            if rel in meta.get("new", ()):
+                overrides[rel] = "\n".join(l[1:] for _, body in hunks for l in body if l[:1] == "+") + "\n"
+                if rel.endswith(".py"):
+                    try:
+                        compile(overrides[rel], rel, "exec")
+                    except SyntaxError as ex:
+                        return None, f"mutant does not compile: {ex}"
+                continue
             try:
                 src = open(os.path.join(root, rel), encoding="utf-8").read()
             except OSError:
